@@ -61,17 +61,33 @@ Definition inputs_step (inp : list rect) (o : op) : list rect :=
 Definition key_le (a b : rect) : Prop := top a < top b \/ (top a = top b /\ left a <= left b).
 Definition key_leb (a b : rect) : bool := (top a <? top b) || ((top a =? top b) && (left a <=? left b)).
 
-Fixpoint sorted (s : list rect) : Prop :=
+Fixpoint pairwise {A} (P : A -> A -> Prop) (s : list A) : Prop :=
   match s with
   | [] => True
-  | a :: rest => Forall (key_le a) rest /\ sorted rest
+  | a :: rest => Forall (P a) rest /\ pairwise P rest
   end.
+
+(* every earlier element's key is <= every later element's key *)
+Definition sorted (s : list rect) : Prop := pairwise key_le s.
 
 Fixpoint sortedb (s : list rect) : bool :=
   match s with
   | [] => true
   | a :: rest => match rest with [] => true | b :: _ => key_leb a b end && sortedb rest
   end.
+
+(* ---- the invariant of the array ----
+   [sep a b]: the row ranges do not overlap, or there is at least one free column between
+   the two.  It implies that a and b have no common cell, and it is what makes the
+   order-dependent tickit_rectset_contains exact (two members that touched horizontally
+   with overlapping row ranges would defeat it: {(0,5,10,5),(1,0,5,5)} answers false for
+   the covered query (2,3,1,4)).  tickit_rectset_add establishes it because such a pair
+   always takes the split-and-recurse branch. *)
+Definition sep (a b : rect) : Prop :=
+  bottom a <= top b \/ bottom b <= top a \/ right a < left b \/ right b < left a.
+
+Definition Inv (s : list rect) : Prop :=
+  Forall nonempty s /\ pairwise sep s /\ sorted s.
 
 (* ---- representative cells (deduplicated edge values) ---- *)
 Definition rep_cells_nd (s : list rect) : list cell :=
